@@ -325,7 +325,12 @@ class Threadless(ABC, Generic[T]):
                         fileno, work_id,
                     ),
                 )
-                self.selector.unregister(fileno)
+                try:
+                    self.selector.unregister(fileno)
+                except (KeyError, ValueError):
+                    # Already gone, e.g. selector.modify unregisters
+                    # a descriptor it fails to modify.
+                    pass
             self.registered_events_by_work_ids[work_id].clear()
             del self.registered_events_by_work_ids[work_id]
         try:
